@@ -1507,7 +1507,10 @@ func vfGenCreate(r *vfRand) *vfProg {
 		init.op(0x00)
 	default:
 		// return a small runtime code: the init code's own bytes
-		init.pushU(uint64(r.Pick(1, 8, 32, 100))).pushU(0).op(0x80, 0x82, 0x39).op(0xf3) // size 0 DUP1 DUP3 CODECOPY ; RETURN(0,size)? keep simple
+		// return a runtime code of `size` bytes: the first bytes of the init code itself
+		// (CODECOPY(mem 0, code 0, size); RETURN(0, size)) - the deployment SUCCEEDS with non-empty code
+		size := uint64(r.Pick(1, 8, 32, 100))
+		init.pushU(size).pushU(0).pushU(0).op(0x39).pushU(size).pushU(0).op(0xf3)
 	}
 	ic := init.bytes()
 	if r.Chance(35) {
@@ -1523,7 +1526,13 @@ func vfGenCreate(r *vfRand) *vfProg {
 	}
 	a.op(0x80).pushU(1).op(0x55) // address -> slot 1
 	a.op(0x3b).pushU(2).op(0x55) // EXTCODESIZE(address) -> slot 2
-	a.op(0x3d).pushU(3).op(0x55)
+	a.op(0x3d).pushU(3).op(0x55) // RETURNDATASIZE right after the create (0 unless the init code reverted) -> slot 3
+	switch r.Intn(4) {
+	case 0:
+		a.op(0x3d).pushU(0).pushU(96).op(0x3e).pushU(96).op(0x51).pushU(4).op(0x55) // RETURNDATACOPY(96, 0, RETURNDATASIZE); MLOAD(96) -> slot 4
+	case 1:
+		a.pushU(1).pushU(0).pushU(96).op(0x3e).pushU(5).pushU(5).op(0x55) // RETURNDATACOPY(96, 0, 1): aborts the frame when nothing was returned
+	}
 	a.op(byte(r.Pick(0x00, 0x00, 0xfd, 0xfe)))
 	if a.b[len(a.b)-1] == 0xfd {
 		a.b = a.b[:len(a.b)-1]
